@@ -168,7 +168,7 @@ def _ei_closed_form(means, std, best, jitter):
     return -float(np.mean(s * (u * norm.cdf(u) + norm.pdf(u))))
 
 
-def _check_acq(acq, x, labels, ctx, name, h_cap=0.02, noise_scale=0.0):
+def _check_acq(acq, x, labels, ctx, name, h_cap=0.02, noise_scale=0.0, std_floor_hit=False):
     f_alone = float(np.array(acq.compute_acq(x.reshape(1, -1))).reshape(-1)[0])
     fval, grad = acq.compute_acq_with_gradient(x.copy())
     fval = float(fval)
@@ -190,6 +190,9 @@ def _check_acq(acq, x, labels, ctx, name, h_cap=0.02, noise_scale=0.0):
             f_noise=20 * np.finfo(float).eps * (abs(f_alone) + noise_scale),
         )
         if status == "mismatch":
+            if std_floor_hit:
+                # listed finding: get_quantiles replaces a predictive std below 1e-10 by 1e-10, the head gradients ignore that
+                raise Violation("acq-gradient-wrong:std-below-the-1e-10-floor", f"{ctx}: x={x.tolist()} d/dx{i}: analytic {float(grad[i])!r}, numerical {runs}, value {f_alone!r}")
             raise Violation(f"acq-gradient-wrong:{name}", f"{ctx}: x={x.tolist()} d/dx{i}: analytic {float(grad[i])!r}, numerical {runs}, value {f_alone!r}")
         if status == "ok":
             n_ok += 1
@@ -283,6 +286,7 @@ def case_acq_gp(t):
     ymax = max(abs(v) for m_ in metrics for v in m_.values())
     # first step of the numerical differentiation near the width of the narrowest feature (std / slope of the mean)
     width = 1.0
+    floor_hit = False
     for p_ in ([pred] if which in ("ei", "lcb") else [pred, pred2]):
         s_x = float(np.array(p_.predict(x.reshape(1, -1))[0]["std"]).reshape(-1)[0])
         slope = 1e-12
@@ -292,7 +296,10 @@ def case_acq_gp(t):
             dm = np.array(p_.predict((x + e).reshape(1, -1))[0]["mean"]).reshape(-1) - np.array(p_.predict((x - e).reshape(1, -1))[0]["mean"]).reshape(-1)
             slope = max(slope, float(np.max(np.abs(dm))) / 2e-4)
         width = min(width, s_x / slope)
-    n_ok = _check_acq(acq, x, labels, ctx, which, h_cap=min(0.02, max(3.0 * width, 1e-7)), noise_scale=max(conds) * (1.0 + ymax))
+        floor_hit = floor_hit or (which != "lcb" and p_ is pred and s_x < 1e-10)
+    if floor_hit:
+        labels.add("std-below-floor")
+    n_ok = _check_acq(acq, x, labels, ctx, which, h_cap=min(0.02, max(3.0 * width, 1e-7)), noise_scale=max(conds) * (1.0 + ymax), std_floor_hit=floor_hit)
     if which == "ei":
         p = pred.predict(x.reshape(1, -1))[0]
         best = pred.current_best()[0]
